@@ -1102,6 +1102,10 @@ func (p *Printer) elemJoin(elems []*ArrayElem, last []Comment) {
 		}
 		if p.wroteIndex(el.Index) {
 			p.w.WriteByte('=')
+			if el.Value != nil {
+				// The value must follow '=' directly.
+				p.wantSpace = spaceNotRequired
+			}
 		}
 		if el.Value != nil {
 			p.word(el.Value)
@@ -1564,6 +1568,10 @@ func (p *Printer) assigns(assigns []*Assign) {
 			// because that can result in indentation, thus
 			// splitting "foo=bar" into "foo= bar".
 			p.advanceLine(a.Value.Pos().Line())
+			if a.Name != nil {
+				// The value must follow '=' directly.
+				p.wantSpace = spaceNotRequired
+			}
 			p.word(a.Value)
 		} else if a.Array != nil {
 			p.wantSpace = spaceNotRequired
